@@ -32,5 +32,13 @@ CHECK = {
             "shards": {"quick": 16, "thorough": 16},
             "budget_s": {"quick": 40, "thorough": 420},
         },
+        {
+            # the runner's half of the contract: expectation headers attached by runTestCasesForServer
+            "name": "c12-runner-headers", "pkg": "internal/app/connectconformance", "rewrite": ["internal/app/connectconformance"],
+            "harness": ["connectconformance/c11_test.go", "connectconformance/fakeproc_test.go", "connectconformance/gateutil_test.go"],
+            "test": "^TestVerifC12RunnerHeaders$", "gomaxprocs": 1,
+            "shards": {"quick": 4, "thorough": 8},
+            "budget_s": {"quick": 40, "thorough": 120},
+        },
     ],
 }
